@@ -406,6 +406,74 @@ def r8_recorder(cx):
     cx.require(len(d) == 1 and U(d[0].value) == "defaultdict(list)", d[0] if d else init, "exceptions is a per-component list table", construct=short(d[0]) if d else "(none)")
 
 
+def r9_content_before_skip(cx, mods):
+    """ContentException is a subclass of the skip signal but is an *error* that must be recorded: wherever a
+    plugin-level try has an arm for SkipComponent, an arm that records ContentException must come first."""
+    cx.rule("C03.R9", "a content error is never swallowed by a skip arm (ContentException subclasses SkipComponent)", floor=2)
+    tbl = exc_table(cx.repo)
+    if "SkipComponent" not in tbl.get("ContentException", ()):
+        cx.ok(cx.repo.module(EXC).cls("ContentException"), "ContentException is no longer a SkipComponent: nothing to order", construct="class ContentException")
+        return
+    for m in mods:
+        if m.name != PL:
+            continue
+        for q, c in m.classes():
+            if not _is_component_type(cx.repo, c):
+                continue
+            for fn in c.body:
+                if not (isinstance(fn, FUNC_TYPES) and fn.name in ("invoke", "process")):
+                    continue
+                for tr in [n for n in walk_body(fn.body) if isinstance(n, ast.Try)]:
+                    names = [handler_names(h) for h in tr.handlers]
+                    sk = [i for i, n in enumerate(names) if "SkipComponent" in n]
+                    if not sk:
+                        continue
+                    ce = [i for i, n in enumerate(names) if "ContentException" in n]
+                    calls_component = any(U(x.func) == "self.component" or (call_attr(x) == "invoke" and U(x.func.value).startswith("super(")) for x in find_calls(tr.body))
+                    if not calls_component:
+                        continue
+                    ok = bool(ce) and ce[0] < sk[0] and bool(find_calls(tr.handlers[ce[0]].body, attr="add_exception"))
+                    cx.require(ok, tr.handlers[sk[0]], "%s.%s: an arm recording ContentException precedes the SkipComponent arm (otherwise a content error raised by the component is treated as a deliberate skip and recorded nowhere)" % (q, fn.name),
+                               construct="handlers: %s" % [",".join(n) for n in names])
+    # PluginType.invoke and the single-value arm of parser.invoke: ContentException arm present and recording
+    pm = cx.repo.module(PL)
+    for q in ("PluginType.invoke", "datasource.invoke", "parser.invoke"):
+        fn = pm.func(q, "C03.R9")
+        arms = [h for h in walk_body(fn.body) if isinstance(h, ast.ExceptHandler) and "ContentException" in handler_names(h)]
+        cx.require(bool(arms) and all(find_calls(h.body, attr="add_exception") for h in arms), fn, "%s has an arm that records ContentException" % q, construct="%d ContentException arms" % len(arms))
+
+
+def r10_alarm_pairing(cx, mods):
+    """A time limit armed for one component must be disarmed on every exit, or it fires inside an innocent component."""
+    cx.rule("C03.R10", "a datasource time limit (signal.alarm) is disarmed on every exit path", floor=1)
+    n = 0
+    for m in mods:
+        if not m.name.startswith("insights.core"):
+            continue
+        for q, fn in m.functions():
+            arms = [x for x in find_calls(fn.body, name="signal.alarm") if not (x.args and isinstance(x.args[0], ast.Constant) and x.args[0].value == 0)]
+            if not arms:
+                continue
+            n += 1
+            dis = [x for x in find_calls(fn.body, name="signal.alarm") if x.args and isinstance(x.args[0], ast.Constant) and x.args[0].value == 0]
+            ok = False
+            for d in dis:
+                for a in ancestors(d):
+                    if isinstance(a, ast.Try) and any(stmt_of(d) is s or any(stmt_of(d) is y for y in ast.walk(s)) for s in a.finalbody):
+                        # the protected region (component call or generator yield) is inside this try's body
+                        prot = [x for x in walk_body(a.body) if (isinstance(x, ast.Call) and U(x.func) in ("self.component",)) or isinstance(x, (ast.Yield, ast.YieldFrom))]
+                        armed_before = all((arm.lineno, arm.col_offset) < (a.body[0].lineno, a.body[0].col_offset) or any(arm is y for s2 in a.body for y in ast.walk(s2)) for arm in arms)
+                        if prot and armed_before:
+                            ok = True
+                    if isinstance(a, FUNC_TYPES):
+                        break
+            cx.require(ok, arms[0], "%s arms signal.alarm and disarms it (signal.alarm(0)) in the finally of the try that protects the timed region, so a failing datasource never leaves a pending alarm" % q,
+                       construct="%s: %d arming call(s), %d disarming call(s)%s" % (q, len(arms), len(dis), "" if ok else " - none in a finally around the timed region"))
+    if n == 0:
+        cx.info(None, "no signal.alarm based time limit found in insights.core (nothing to pair)")
+        cx.ok(cx.repo.module(PL).cls("datasource"), "no alarm-based time limit: nothing can stay armed", construct="(no signal.alarm)")
+
+
 def g1_bare_vs_self(cx, mods):
     """Generic cross-reference lint: bare name resolving to a module-level binding in a
     method that also uses self.<same name> (INFO only; the property rule is R3)."""
@@ -442,5 +510,7 @@ def run(cx):
     cx.guard(r6_skip_gating, sites)
     cx.guard(r7_registry_mirror)
     cx.guard(r8_recorder)
+    cx.guard(r9_content_before_skip, mods)
+    cx.guard(r10_alarm_pairing, mods)
     if cx.tier == "thorough":
         cx.guard(g1_bare_vs_self, mods)
